@@ -155,7 +155,7 @@ def execute(plan):
         stats["or.conservation"] += 1
         # was some accepted step not the last trial of its line search (re-evaluation path)?
         reeval = False
-        for ev0, ev1, step in a.ls_log:
+        for ev0, ev1, step, _dn in a.ls_log:
             if step is None:
                 continue
             trial = [e for e in a.events[ev0:ev1] if e[0] == "fun"]
